@@ -75,7 +75,11 @@ def pattern_cases(R, tier):
         d = rng.choice((2, 3, 3, 4, 4, 5, 6) if tier == 'quick' else (3, 4, 4, 5, 5, 6, 7))
         if i % 25 == 0:
             d = rng.choice((7, 8, 9, 10))      # the lazily filled sign table, generators beyond the 8th bit
-        if rng.random() < 0.2 and d <= 5:
+        if i % 100 == 50:
+            # a custom basis beyond d = 6 (lazily computed signs), degenerate metric, generators listed out of index order
+            d = 7
+            spec = {'sig': [0] + [rng.choice((1, -1)) for _ in range(d - 1)], 'basis': algs.random_basis(rng, d, start=0, spell=False, order=False)}
+        elif rng.random() < 0.2 and d <= 5:
             spec = {'sig': [rng.choice((1, -1, 0)) for _ in range(d)], 'basis': algs.random_basis(rng, d)}
         elif rng.random() < 0.1:
             spec = {'fromname': rng.choice(list(algs.NAMED))}
